@@ -328,6 +328,11 @@ func (db *Backend) GetObject(bucketName, objectName string, rangeRequest *gofake
 			return gofakes3.KeyNotFound(objectName)
 		}
 
+		// Bytes handed out by bolt are only valid until the transaction ends
+		// and bson.Unmarshal does not copy []byte fields, but the object's
+		// contents are read by the caller long after: decode a private copy.
+		v = append([]byte(nil), v...)
+
 		if err := bson.Unmarshal(v, &t); err != nil {
 			return fmt.Errorf("gofakes3: could not unmarshal object at %q/%q: %v", bucketName, objectName, err)
 		}
